@@ -1,4 +1,5 @@
 import Iavl.Lemmas.ChangeSetCorrect
+import Iavl.Lemmas.VersionSharing
 /-
   C15 — extracted change sets equal the net writes of each version. `changeSet` is the executable
   specification the implementation's `TraverseStateChanges` is compared with on every history: the
@@ -31,6 +32,30 @@ theorem changeset_effect (ns : List (K × V)) (ds : List K) (m : List (K × V))
     lookup k (applyChanges m (mergeChanges ns ds)) =
       if (lookup k ns).isSome then lookup k ns else if k ∈ ds then none else lookup k m :=
   lookup_applyChanges_merge ns ds m hm hn hd k
+
+/-- **for every history**: in every state the version machine reaches from an empty store, the change
+    set extracted for a retained version `u+1` whose predecessor `u` is retained, applied to the contents
+    of `u`, gives the contents of `u+1`. The sharing hypothesis of `apply_changeset` is an invariant of
+    the machine (`step_sinv`: every write shares saved subtrees with the tree it started from, a commit
+    stamps only new nodes, deletions and rollbacks only drop versions). -/
+theorem changeset_of_every_history [BEq K] (iv : Option Nat) (ops : List (Op K V)) (u : Nat) (p c : OTree K V)
+    (h1 : (u, p) ∈ (stateAfter (initT iv) ops).versions)
+    (h2 : (u + 1, c) ∈ (stateAfter (initT iv) ops).versions) :
+    applyChanges (contents p) (changeSet u p c) = contents c := by
+  have hs := stateAfter_sinv (initT iv : VState (OTree K V)) (sinv_init iv) ops
+  have hi := stateAfter_inv (initT iv : VState (OTree K V))
+    ⟨trivial, trivial, by intro q hq; simp [initT] at hq⟩ ops
+  have gp := hi.gv _ h1
+  have gc := hi.gv _ h2
+  refine apply_changeSet u p c ?_ ?_ (hs.pairs u p c h1 h2)
+  · cases p with | none => trivial | some t => exact gp.1
+  · cases c with | none => trivial | some t => exact gc.1
+
+/-- non-vacuity of the history theorem: a concrete history reaches a state with two consecutive retained
+    versions whose contents differ by a set and a removal -/
+example : let ops : List (Op Nat Nat) := [.set 1 10, .save false, .set 2 20, .remove 1, .save false]
+    (stateAfter (initT none : VState (OTree Nat Nat)) ops).versions.map (fun p => (p.1, contents p.2)) =
+      [(1, [(1, 10)]), (2, [(2, 20)])] := by decide
 
 /-- non-vacuity: version 2 adds key 2 next to the shared leaf of key 1 — the sharing hypothesis of
     `apply_changeset` holds for these trees -/
